@@ -128,6 +128,19 @@ Next_ClobberSame ==
      reply \in {[k |-> "idx", idx |-> <<0, 1>>], [k |-> "idx", idx |-> <<1, 0>>], [k |-> "idx", idx |-> <<0>>], [k |-> "idx", idx |-> <<0, 1, 2>>]} :
      (\A i \in 1 .. Len(reply.idx) : reply.idx[i] < Cardinality(items)) /\ Restore([k |-> "root"], "none", sort, reply, ow) /\ Emit
 
+\* an info WITHOUT payload (what a killed trash-put or a killed trash-restore leaves) whose original location is free or
+\* occupied by any kind of entry: selecting it is an error, and - with or without --overwrite - whatever lives at the
+\* location stays (there is nothing to replace it with); a second, complete entry is restored or not as usual
+Init_ClobberStray ==
+  /\ cfg \in CfgsPlain
+  /\ dirs = BaseDirs
+  /\ \E oa \in 0 .. 4, pb \in 1 .. 4 :
+       /\ live = IF oa = 0 THEN {} ELSE {[r |-> "R", d |-> "d", n |-> "a", o |-> oa]}
+       /\ items = {[t |-> "t2:V1", o |-> 4 + pb, r |-> "V1", d |-> "d", n |-> "b", date |-> 1]}
+  /\ strays = {[t |-> "home", id |-> 1, r |-> "R", d |-> "d", n |-> "a", date |-> 0]}
+  /\ tex = {"home", "t2:V1"} /\ orph = {} /\ junk = {}
+  /\ clock = 2 /\ purged = {} /\ out = [cmd |-> "init"]
+
 Next_Clobber ==
   \E sort \in {"date", "path"}, ow \in BOOLEAN,
      reply \in {[k |-> "idx", idx |-> <<0>>], [k |-> "idx", idx |-> <<1>>], [k |-> "idx", idx |-> <<0, 1>>], [k |-> "idx", idx |-> <<1, 0>>]} :
@@ -256,8 +269,13 @@ Init_ManyBase(occ) ==
                   m \in {{"R", "V1"}, {"R", "H", "V1"}, {"R", "V1", "V2"}}, x \in {"absent", "sticky"}}
   /\ dirs \in {BaseDirs, TopDirs \cup {[r |-> "R", d |-> "d"]}}
   /\ tex = {"home", "t2:V1"} \cup (IF cfg.top["V1"] = "sticky" THEN {"t1:V1"} ELSE {})
-  /\ \E v \in 1 .. 3 :
-     /\ items = CASE v = 1 -> {[t |-> "home", o |-> 1, r |-> "R", d |-> "d", n |-> "a", date |-> 2],
+  /\ \E v \in 1 .. 4 :
+     /\ items = CASE v = 4 -> \* the same original path trashed twice, into two different trash directories (home fallback, then the volume)
+                             {[t |-> "home", o |-> 1, r |-> "V1", d |-> "d", n |-> "a", date |-> 1],
+                              [t |-> "t2:V1", o |-> 3, r |-> "V1", d |-> "d", n |-> "a", date |-> 2],
+                              [t |-> "t2:V1", o |-> 4, r |-> "V1", d |-> "top", n |-> "b", date |-> 0],
+                              [t |-> "home", o |-> 2, r |-> "R", d |-> "d", n |-> "a", date |-> 3]}
+                 [] v = 1 -> {[t |-> "home", o |-> 1, r |-> "R", d |-> "d", n |-> "a", date |-> 2],
                               [t |-> "home", o |-> 2, r |-> "R", d |-> "de", n |-> "a", date |-> 1],
                               [t |-> "t2:V1", o |-> 3, r |-> "V1", d |-> "d", n |-> "a", date |-> 1],
                               [t |-> "t2:V1", o |-> 4, r |-> "V1", d |-> "top", n |-> "b", date |-> 0]}
@@ -269,6 +287,7 @@ Init_ManyBase(occ) ==
                               [t |-> "t2:V1", o |-> 3, r |-> "V1", d |-> "d", n |-> "a", date |-> 1],
                               [t |-> "t2:V1", o |-> 6, r |-> "V1", d |-> "d", n |-> "b", date |-> 2]}
      /\ live = IF occ THEN {[r |-> i.r, d |-> i.d, n |-> i.n, o |-> 7] : i \in {x \in items : x.o = 1}} ELSE {}
+     /\ (occ /\ v = 4 => dirs = BaseDirs)
   /\ orph = {} /\ junk = {}
   /\ strays \in {{}, {[t |-> "home", id |-> 1, r |-> "R", d |-> "d", n |-> "b", date |-> 4]}}
   /\ clock = 5 /\ purged = {} /\ out = [cmd |-> "init"]
